@@ -9,6 +9,8 @@ use mcx::{guard, CheckDef, Ctx, Sub, Tier};
 mod c10;
 #[path = "codec/views.rs"]
 mod views;
+#[path = "codec/autotraits.rs"]
+mod autotraits;
 
 fn main() {
     mcx::engine::main(|prop, tier| match prop {
@@ -17,6 +19,9 @@ fn main() {
             // reader-operation histories + whole-section parse views
             let mut d = c10::def(tier);
             d.subs.extend(views::subs(tier));
+            d.subs.extend(autotraits::subs());
+            d.required_outcomes.push("autotraits:rc-backed-not-send-not-sync".into());
+            d.required_outcomes.push("autotraits:shareable-ok".into());
             d.required_outcomes.extend(views::required_outcomes());
             Some(d)
         }
